@@ -21,6 +21,7 @@
 package engine
 
 import (
+	"fmt"
 	"go/ast"
 	"go/token"
 	"path/filepath"
@@ -241,7 +242,11 @@ func (r ImportReplacer) Replace(d data.Data, cl Changelog, f *ast.File) (string,
 			if err != nil {
 				return "", err
 			}
-			name = namev.Interface().(*ast.Ident).Name
+			ident, ok := namev.Interface().(*ast.Ident)
+			if !ok || ident == nil {
+				return "", fmt.Errorf("cannot use %v as the name of import %q", namev.Type(), r.Path)
+			}
+			name = ident.Name
 			pkgName = name
 		}
 
